@@ -209,7 +209,8 @@ def run(rep, tier):
     extra = []
     for c in rs.printed.get("CASE", []):
         k = json.dumps(c["sig"], sort_keys=True)
-        if k not in seen and len(c["sig"]["params"]) >= 2:
+        # callbacks are outside the Dart profile (and this property's quantifier)
+        if k not in seen and len(c["sig"]["params"]) >= 2 and not any(p["k"] == "cb" for p in c["sig"]["params"]):
             seen.add(k)
             extra.append(c)
     random.Random(lib.seed()).shuffle(extra)
